@@ -30,7 +30,8 @@ Mnc     == {0, 2, 3}     \* min_n_cycles: 0 = key absent
 Funcs   == {"compute_features", "compute_shape_features", "compute_burst_features", "recompute_edges", "recompute_edges_no_burst", "limit_df", "epoch_df",
             "drop_samples_df", "plot", "compute_features_2d", "compute_features_2d_epochs", "compute_features_3d",
             "limit_df_keeping_all_cycles", "compute_burst_features_inverted_flanks",
-            "compute_shape_features_n_cycles_5", "compute_features_default_options"}
+            "compute_shape_features_n_cycles_5", "compute_features_default_options",
+            "plot_cyclepoints_df", "plot_cyclepoints_array", "plot_burst_detect_param", "plot_feature_hist", "plot_feature_categorical"}
 
 FuncsObjectHeavy == {"compute_features"}      \* substituted for Funcs (cfg: Funcs <- FuncsObjectHeavy) when simulating object-centred sessions
 VARIABLES heap, intent, obj, hist
@@ -61,6 +62,12 @@ Recompute(o, r) == /\ obj[o].alive /\ obj[o].method = "cycles" /\ obj[o].df.kind
                                                     lvl |-> heap[obj[o].tk].lvl, red |-> r, centre |-> obj[o].df.centre]]
                    /\ Log([a |-> "Recompute", o |-> o, method |-> "cycles", tk |-> obj[o].tk, s |-> 0, v |-> r])
                    /\ UNCHANGED <<heap, intent>>
+\* named deviation (what the code does): the object's recompute_edges always re-labels with the consistency rule, so on an object that uses the
+\* amplitude method (it is handed amplitude thresholds) or that holds no table it raises - exactly as the functional recompute_edges does for
+\* the same table and thresholds; nothing changes, and the object stays usable.
+RecomputeRaises(o) == /\ obj[o].alive /\ ((obj[o].method = "amp" /\ obj[o].df.kind \in {"fit", "edges"}) \/ obj[o].df.kind = "none")
+                      /\ Log([a |-> "RecomputeRaises", o |-> o, method |-> obj[o].method, tk |-> obj[o].tk, s |-> 0, v |-> 0])
+                      /\ UNCHANGED <<heap, intent, obj>>
 Load(o, s) == /\ obj[o].alive
               /\ obj' = [obj EXCEPT ![o].df = [kind |-> "loaded", sig |-> s, method |-> "", m |-> 0, lvl |-> 0, red |-> 0, centre |-> ""]]
               /\ Log([a |-> "Load", o |-> o, method |-> obj[o].method, tk |-> obj[o].tk, s |-> s, v |-> 0])
@@ -92,6 +99,7 @@ Next == /\ Len(hist) < MaxDepth
         /\ \/ \E o \in Objs, method \in {"cycles", "amp"}, tk \in ThrRefs : New(o, method, tk)
            \/ \E o \in Objs, s \in Sigs : Fit(o, s) \/ Load(o, s)
            \/ \E o \in Objs, r \in {0, 1} : Recompute(o, r)
+           \/ \E o \in Objs : RecomputeRaises(o)
            \/ \E r \in Editable, val \in Mnc : EditDict(r, "mnc", val)
            \/ \E r \in ThrRefs, val \in {1, 2} : EditDict(r, "lvl", val)
            \/ \E o \in Objs : GetAttr(o)
@@ -110,6 +118,7 @@ NextFocused == /\ Len(hist) < MaxDepth
                   \/ \E o \in Objs, tk \in ThrRefs : Rebind(o, tk)
                   \/ \E o \in Objs, s \in Sigs : Fit(o, s) \/ Load(o, s)
                   \/ \E o \in Objs, r \in {0, 1} : Recompute(o, r)
+                  \/ \E o \in Objs : RecomputeRaises(o)
                   \/ \E r \in Editable : EditDict(r, "mnc", NextVal("mnc", heap[r].mnc))
                   \/ \E r \in ThrRefs : EditDict(r, "lvl", NextVal("lvl", heap[r].lvl))
                   \/ \E o \in Objs : GetAttr(o)
@@ -122,6 +131,7 @@ NextRefit == /\ Len(hist) < MaxDepth
              /\ \/ \E method \in {"cycles", "amp"} : ~obj[1].alive /\ New(1, method, TkOf(method))
                 \/ Fit(1, 1)
                 \/ \E r \in {0, 1} : Recompute(1, r)
+                \/ RecomputeRaises(1)
                 \/ \E r \in Editable : EditDict(r, "mnc", NextVal("mnc", heap[r].mnc))
                 \/ \E r \in ThrRefs : EditDict(r, "lvl", NextVal("lvl", heap[r].lvl))
                 \/ \E c \in {"peak", "trough"} : SetCentre(1, c)
